@@ -642,6 +642,10 @@ pub fn analyse(case: &ChanCase, run: &ChanRun) -> CaseReport {
                     key: "C07/drop-count".into(),
                     msg: format!("value {} dropped {} times", id, n),
                 });
+                if *n > 1 {
+                    // two owners destroyed it: it came out of the channel more than once
+                    rep.violations.push(Viol { key: "C06/duplicate".into(), msg: format!("value {} was destroyed {} times: the channel handed out (or kept) more than one copy of it", id, n) });
+                }
                 break;
             }
         }
